@@ -367,6 +367,13 @@ func c08Snapshot(blocks []eth.Block) []c08Blk {
 	return out
 }
 
+// c08HeldRes is a result an earlier caller still holds.
+type c08HeldRes struct {
+	call   string
+	blocks []eth.Block
+	digest string
+}
+
 func c08ChainLogContent(l *simnode.Log) string {
 	var ts []string
 	for _, t := range l.Topics {
@@ -576,7 +583,11 @@ func c08Run(c *vk.Case) {
 	case 4, 5:
 		c08RunConc(c)
 	case 6:
-		c08RunHeadSeq(c)
+		if (c.Index/8)%4 == 3 {
+			c08RunHeadListenerFailure(c)
+		} else {
+			c08RunHeadSeq(c)
+		}
 	case 7:
 		c08RunHeadPoll(c)
 	}
@@ -693,6 +704,7 @@ func c08RunSeq(c *vk.Case, many bool) {
 		shapesUsed    = map[string]bool{}
 		maxPerFetch   int
 		tightExceeded int64
+		heldRes       []c08HeldRes
 	)
 	for op := 0; op < nops; op++ {
 		var call c08Call
@@ -759,8 +771,24 @@ func c08RunSeq(c *vk.Case, many bool) {
 			c.Violate("c08:"+wl+":error-without-fault", detail(), "Get %s failed (%v) although no fault was injected during the call", call, err)
 			outcomeKinds["error-without-fault"] = true
 		}
+		// what earlier callers were given is theirs: later requests (whoever decodes them, into whatever buffers) must
+		// not change it
+		for _, h := range heldRes {
+			if now := fmt.Sprint(c08Snapshot(h.blocks)); now != h.digest {
+				d := detail()
+				d["earlier_call"], d["was"], d["now"] = h.call, firstLines(h.digest, 6), firstLines(now, 6)
+				c.Violate("c08:"+wl+":returned-blocks-changed-later", d, "the blocks returned by the earlier Get %s changed while later requests were served", h.call)
+				heldRes = nil
+				break
+			}
+			c.Obs("held_results_rechecked", 1)
+		}
 		if err == nil {
 			snap := c08Snapshot(blocks)
+			heldRes = append(heldRes, c08HeldRes{call.String(), blocks, fmt.Sprint(snap)})
+			if len(heldRes) > 6 {
+				heldRes = heldRes[1:]
+			}
 			if what, msg := c08CheckResult(chain, call.sh, call.start, call.limit, snap, false); what != "" {
 				d := detail()
 				d["problem"] = msg
@@ -1496,7 +1524,6 @@ func c08RunHeadPoll(c *vk.Case) {
 	c.Sample(detail)
 }
 
-
 // wallClockTimeout: jrpc2's http.Client has a hard 10 s timeout; on an overloaded
 // machine it fires without any injected fault. That is a watchdog, not a verdict.
 func wallClockTimeout(err error) bool {
@@ -1505,4 +1532,104 @@ func wallClockTimeout(err error) bool {
 	}
 	m := err.Error()
 	return strings.Contains(m, "Client.Timeout") || strings.Contains(m, "deadline exceeded") || strings.Contains(m, "closed pipe") || strings.Contains(m, "i/o timeout")
+}
+
+// ---------------------------------------------------------------- head cache when the listener fails
+
+// c08RunHeadListenerFailure: the head listener (HTTP poller, one request every 40 ms) fails in the middle of a run of
+// cache hits. A listener failure is not the source being asked: the cached head still serves at most maxreads
+// successive reads between two answers of the source.
+func c08RunHeadListenerFailure(c *vk.Case) {
+	r := c.R
+	chain := c08Chain(r, 12) // unchanging: a repeated head announcement renews nothing
+	node := simnode.Global().NewNode(chain)
+	defer node.Retire()
+	rc := newC08Rec()
+	rc.pollFaultAt[0] = vk.Pick(r, c08FaultKinds) // the listener's first request fails
+	node.SetHook(rc.hook)
+	defer node.SetHook(nil)
+	maxreads := r.Range(2, 6)
+	cl := jrpc2.New(node.URL("")).WithMaxReads(maxreads).WithPollDuration(40 * time.Millisecond)
+	url := node.URL("")
+	var (
+		trace     []string
+		streak    int
+		maxSeen   int
+		pollSeen  = 1 // poller requests accounted for (number 0 is the failure we wait for)
+		disturbed bool
+	)
+	read := func(phase string) bool {
+		m := rc.mark()
+		num, hash, err := cl.Latest(context.Background(), url, 1)
+		asked := false
+		for _, e := range rc.since(m) {
+			if e.kind == "head" && !e.failed {
+				asked = true
+			}
+			if e.kind == "poll" {
+				disturbed = true // a listener request during a read phase: the phase is not what this workload set up
+			}
+		}
+		trace = append(trace, fmt.Sprintf("%s: Latest(1)=(%d,%.8x,%v) asked=%v", phase, num, hash, err != nil, asked))
+		if err != nil {
+			if wallClockTimeout(err) {
+				c.Inconclusive("the client's own wall-clock timeout fired: %v", err)
+			} else {
+				c.Violate("c08:head-listener-failure:error-without-fault", map[string]any{"script": trace}, "Latest failed (%v) although only the listener's request was failed", err)
+			}
+			return false
+		}
+		if asked {
+			streak = 0
+		} else {
+			streak++
+			if streak > maxSeen {
+				maxSeen = streak
+			}
+		}
+		c.Obs("latest_calls", 1)
+		return true
+	}
+	// first read asks the source; maxreads-1 hits follow
+	for i := 0; i < maxreads; i++ {
+		if !read("before") {
+			return
+		}
+	}
+	// wait (watchdog only) for the listener's failed request, then let the client take note of it
+	failed := false
+	for i := 0; i < 5000 && !failed; i++ {
+		for _, e := range rc.since(0) {
+			if e.kind == "poll" && e.failed {
+				failed = true
+			}
+		}
+		if !failed {
+			time.Sleep(time.Millisecond)
+		}
+	}
+	if !failed {
+		c.Inconclusive("the listener never issued its request")
+		return
+	}
+	time.Sleep(3 * time.Millisecond)
+	_ = pollSeen
+	disturbed = false
+	for i := 0; i < 2*maxreads+1; i++ {
+		if !read("after-listener-failure") {
+			return
+		}
+	}
+	c.Obs("listener_failure_runs", 1)
+	c.Evals(int64(3*maxreads + 1))
+	if disturbed {
+		c.Obs("listener_failure_runs_disturbed", 1)
+		return
+	}
+	c.MaxObs("max_head_hits_per_ask_minus_maxreads_plus10", int64(maxSeen-maxreads+10))
+	if maxSeen > maxreads {
+		c.Violate("c08:head-listener-failure:head-reads-exceed-maxreads", map[string]any{"maxreads": maxreads, "successive_reads_without_asking": maxSeen, "script": trace},
+			"around a listener failure the cached head served %d successive reads without the source being asked (maxreads %d)", maxSeen, maxreads)
+	}
+	c.SetSig("head-listener-failure|mr=%d", maxreads)
 }
